@@ -164,12 +164,18 @@ class StopWorld(World):
             sysd["max_iter"] = rng.choice([0, 1, 2, 3])
             sysd["shape"] = rng.choice([[6, 6], [8, 6]])
             sysd["ncoils"] = rng.randint(2, 3)
-        style = rng.choice(["interleaved", "interleaved", "canonical", "run", "run", "run_twice"])
+        style = rng.choice(["interleaved", "interleaved", "canonical", "run", "run", "run_twice", "manual_then_run"])
         sched = []
         if style == "canonical":
             sched = ["L"]
         elif style == "run":
             sched = ["RUN"]
+        elif style == "manual_then_run":
+            # the caller steps the algorithm inside the app by hand, looks at it, then lets run() finish
+            sched = []
+            for _ in range(rng.randint(1, max(1, min(mi, 3)))):
+                sched += ["u", rng.choice(["D", "P", "R", "I"])]   # u: update only if not done()
+            sched += ["RUN"]
         elif style == "run_twice":
             # a second run() on the same App: resumes after an aborted first run, or finds the
             # algorithm done and must change nothing
@@ -577,7 +583,7 @@ class StopWorld(World):
                 if guard > T.max_iter + 3:
                     break
             tw_out = None
-            if T.app is not None and plan.get("style") in ("run", "run_twice"):
+            if T.app is not None and plan.get("style") in ("run", "run_twice", "manual_then_run"):
                 try:
                     o = T.app._output()
                     outs = o if isinstance(o, (tuple, list)) else [o]
@@ -715,13 +721,18 @@ class StopWorld(World):
                 d0 = generic_state(alg, S.extra)
                 if a == "D":
                     val = bool(common.lib_call(site + ".done", step, alg.done))
+                elif a == "I":
+                    val = [int(alg.iter), int(alg.max_iter), repr(type(alg).__name__),
+                           sorted(k_ for k_ in vars(alg) if not k_.startswith("_"))[:3]]
+                    if S.app is not None:
+                        val.append(S.app.alg is alg)
                 elif a == "P":
                     val = [codec.qdigest(np.array(s, copy=True)) for s in S.solution()]
                 else:
                     val = repr(getattr(alg, "resid", getattr(alg, "residual", None)))[:24]
                 stats["steps"] += 1
                 if generic_state(alg, S.extra) != d0:
-                    raise Violation("query_changed_state", site + "." + {"D": "done", "P": "x", "R": "resid"}[a], step,
+                    raise Violation("query_changed_state", site + "." + {"D": "done", "P": "x", "R": "resid", "I": "attributes"}[a], step,
                                     {"updates": st["u"]})
                 trace.append({"a": a, "v": val})
                 return val
@@ -791,7 +802,13 @@ class StopWorld(World):
             for step, a in enumerate(plan["schedule"]):
                 if st.get("continued"):
                     break
-                if a == "U":
+                if a == "u":
+                    if bool(common.lib_call(site + ".done", step, alg.done)):
+                        early_stop_check(step)
+                        continue
+                    acts.append("U")
+                    update(step)
+                elif a == "U":
                     acts.append("U")
                     if alg.iter >= mi + 2:
                         continue
